@@ -16,6 +16,11 @@ strategy-verified class whose verification strategy supplies a pack:
   weakverif       the verification strategy's pack can reach the class only as a child of a product rule:
                   ``expand_comb_class`` fails without reverse rules and ``expand_verified`` must retry with
                   ``reverse=True`` (then goes on expanding the class verified on the way).
+  borrowed        as weakverif, but the rule that has to be reversed is produced by expanding ANOTHER class, one the
+                  specification at hand already gives a rule to (class(xp), verified by a second strategy): the pack
+                  supplied for class(p) only makes class(xp) known (expansion of class(x)) and factorises prefixes, so
+                  in the retry ``class(xp) = {x} x class(p)`` appears only if the search keeps expanding classes that
+                  already are specified (``continue_expanding_verified``), and class(p) = class(xp) / {x} completes it.
 
 Contract (deal ``ensure`` on a sidecar wrapper installed on ``CombinatorialSpecification.expand_verified``):
 
@@ -30,8 +35,12 @@ Contract (deal ``ensure`` on a sidecar wrapper installed on ``CombinatorialSpeci
   original-unchanged    the original has the same ``rules_dict`` keys in the same order holding the same rule objects,
                         the same root, still equals a snapshot of its description, and still counts / generates the
                         same (n <= 8 counts, n <= 5 objects; one size more than ever computed before the expansion);
-  expansion-succeeds    ``SpecificationNotFound`` only where the supplied pack really cannot specify the class (pack
-                        weakverif with a removable first letter); no other exception.  When the exception is the
+  expansion-succeeds    ``SpecificationNotFound`` only where the supplied pack really cannot specify the class: packs
+                        weakverif / borrowed, and for some verified class(p) of the original no letter x gives the
+                        factorisation class(xp) = {x} x class(p) (decided here, from the prefix and the patterns, and
+                        confirmed by brute force) -- where such a letter exists class(p) = class(xp) / {x} with
+                        class(xp) verified completes a specification, so the expansion must succeed; no other
+                        exception.  When the exception is the
                         forest extractor's "Can't find a rule for ..." the witness carries ``kind``:
                         "foreign-parent-factory-rule" if every rule produced under that key came from a
                         StrategyFactory expanding a class that is neither its parent nor one of its children (the
@@ -214,6 +223,76 @@ class WeakPackVerified(VerificationStrategy):
         return "WeakPackVerified()"
 
 
+class PrependExpansionFactory(StrategyFactory):
+    """For a class C with a one-letter prefix p and another letter x such that class(xp) = {x} x C is the prefix
+    factorisation of class(xp): yields the expansion rule of class(x) only (class(xp) becomes known as a child)."""
+
+    def __call__(self, comb_class):
+        if comb_class.just_prefix or comb_class.is_empty() or len(comb_class.prefix) != 1:
+            return
+        front = RemoveFrontOfPrefix()
+        for letter in comb_class.alphabet:
+            if letter == comb_class.prefix:
+                continue
+            longer = comb_class.derive(prefix=letter + comb_class.prefix)
+            children = front.decomposition_function(longer)
+            if children is not None and children[1] == comb_class:
+                yield ExpansionStrategy()(comb_class.derive(prefix=letter))
+
+    def __str__(self):
+        return "PrependExpansionFactory"
+
+    def __repr__(self):
+        return "PrependExpansionFactory()"
+
+    @classmethod
+    def from_dict(cls, d):
+        return cls()
+
+
+def _borrow_pack():
+    return StrategyPack(
+        initial_strats=[], inferral_strats=[], expansion_strats=[[PrependExpansionFactory(), RemoveFrontOfPrefix()]],
+        ver_strats=[StatAtomStrategy(), LongPrefixVerified(k=2)],
+        name="borrow pack (the rule to reverse belongs to a class that is already specified)")
+
+
+class BorrowPackVerified(WeakPackVerified):
+    """As WeakPackVerified; the supplied pack produces class(xp) = {x} x class(p) only when class(xp) is expanded."""
+
+    def pack(self, comb_class):
+        return _borrow_pack()
+
+    def formal_step(self):
+        return "prefix is the letter a (borrowing pack)"
+
+    def __repr__(self):
+        return "BorrowPackVerified()"
+
+
+def prepend_factorisation(comb_class):
+    """A letter x such that class(xp) = {x} x class(p) (p the one-letter prefix of comb_class), or None.  Harness
+    arithmetic on prefix and patterns, confirmed by brute force for n <= 6."""
+    if comb_class.just_prefix or len(comb_class.prefix) != 1:
+        return None
+    for letter in comb_class.alphabet:
+        if letter == comb_class.prefix:
+            continue
+        longer = comb_class.derive(prefix=letter + comb_class.prefix)
+        if longer.is_empty() or RemoveFrontOfPrefix.index_safe_to_remove_up_to(longer) != 1:
+            continue
+        assert all(brute_objects(longer, n + 1) == [letter + w for w in brute_objects(comb_class, n)] for n in range(6))
+        return letter
+    return None
+
+
+def weak_pack_suffices(spec):
+    """Every class of the specification verified by WeakPackVerified / BorrowPackVerified has a prepend factorisation
+    (then its pack, with reverse rules, specifies it: class(p) = class(xp) / {x}, class(xp) verified)."""
+    return all(prepend_factorisation(r.comb_class) is not None for r in all_rules(spec)
+               if isinstance(r, VerificationRule) and isinstance(r.strategy, WeakPackVerified))
+
+
 def _pack(name, initial, inferral, expansion, ver):
     return StrategyPack(initial_strats=initial, inferral_strats=inferral, expansion_strats=expansion, ver_strats=ver,
                         name=name)
@@ -229,6 +308,10 @@ PACKS["picky2"] = lambda: _pack(
 PACKS["weakverif"] = lambda: _pack(
     "weakverif", [RemoveFrontOfPrefix()], [], [[ExpansionStrategy()]], [StatAtomStrategy(), WeakPackVerified()])
 
+PACKS["borrowed"] = lambda: _pack(
+    "borrowed", [], [], [[ExpansionStrategy()]], [StatAtomStrategy(), BorrowPackVerified(), LongPrefixVerified(k=2)])
+CAN_FAIL_PACKS = ("weakverif", "borrowed")  # packs whose verification strategy supplies a pack that may be too weak
+
 _EXTRA = {
     "longverif": [("ab", ["aba"], "ab", ()), ("aa", ["aaa"], "ab", ("na",)), ("", ["aba", "bab"], "ab", ()),
                   ("", ["aaa", "bbb"], "ab", ("na", "nb")), ("ab", ["aba", "bab"], "ab", ("nb",))],
@@ -242,6 +325,9 @@ _EXTRA = {
     "weakverif": [("", ["aba"], "ab", ()), ("", ["aab"], "ab", ()), ("", ["aba", "bab"], "ab", ("na",)),
                   ("", ["aa"], "ab", ()), ("", ["aa", "bb"], "ab", ("nb",)), ("", ["abb"], "ab", ()),
                   ("b", ["aba"], "ab", ()), ("", ["bb"], "ab", ()), ("", [], "ab", ())],
+    "borrowed": [("", ["aba"], "ab", ()), ("", ["aab"], "ab", ()), ("", ["aba", "bab"], "ab", ("na",)),
+                 ("", ["aa"], "ab", ()), ("", ["aa", "bb"], "ab", ("nb",)), ("", ["abb"], "ab", ()),
+                 ("b", ["aba"], "ab", ()), ("", ["ab"], "ab", ()), ("a", ["aa"], "ab", ()), ("", ["aa", "aab"], "ab", ())],
 }
 
 
@@ -511,9 +597,13 @@ def run_case(case):
             COUNTS["expansion-not-possible"] += 1
             info["outcome"] = "pack-cannot-specify"
             info["retried"] = bool(_LAST.get("retried"))
-            if pack_name != "weakverif":
+            if pack_name not in CAN_FAIL_PACKS:
                 return viol("expansion-succeeds", "expand_verified raised SpecificationNotFound although the supplied "
                             "pack specifies the class on its own"), info
+            if weak_pack_suffices(spec):
+                return viol("expansion-succeeds", "expand_verified raised SpecificationNotFound although every class "
+                            "verified with a weak pack is a factor class(p) = class(xp) / {x} of a class that the "
+                            "pack verifies"), info
             if not _original_unchanged(spec, spec.__dict__["_h_c19"]):
                 return viol(_LAST["check"], _LAST["what"]), info
             return None, info
@@ -551,7 +641,7 @@ def _cases(tier, seed):
         starts = [Av(p, pt, al, False, st) for p, pt, al, st in _EXTRA.get(pack_name, [])]
         if pack_name in UNIVERSE_PACKS or tier != "quick":
             starts += base
-        elif pack_name == "weakverif":
+        elif pack_name in CAN_FAIL_PACKS:
             starts += [c for c in base if not c.prefix][:20]
         seen = set()
         for s in starts:
